@@ -77,10 +77,18 @@ type JobsScenario struct {
 	Limit   int        `json:"limit"`
 	Jobs    int        `json:"jobs"`
 	Threads [][]JobsOp `json:"threads"`
+	// Reattach: jobs an earlier mrp submitted and which are running on the
+	// cluster; mrp re-attaches them (one after the other, before anything
+	// new is submitted, as ReattachToPipestance does).  A thread finishes
+	// such a job with the op "finish".
+	Reattach []int `json:"reattach,omitempty"`
 }
 
 func (sc JobsScenario) String() string {
 	var ts []string
+	if len(sc.Reattach) > 0 {
+		ts = append(ts, fmt.Sprintf("reattached%v", sc.Reattach))
+	}
 	for _, t := range sc.Threads {
 		var os []string
 		for _, o := range t {
